@@ -331,3 +331,68 @@ func b2s(b bool) string {
 	}
 	return "false"
 }
+
+// litStores returns the stores to the fields of a struct built in an alloc.
+func litStores(a *ssa.Alloc) map[string][]*ssa.Store {
+	out := map[string][]*ssa.Store{}
+	for _, ref := range *a.Referrers() {
+		if fa, ok := ref.(*ssa.FieldAddr); ok {
+			_, name := core.FieldOwner(fa)
+			for _, rr := range *fa.Referrers() {
+				if st, ok := rr.(*ssa.Store); ok && st.Addr == fa {
+					out[name] = append(out[name], st)
+				}
+			}
+		}
+	}
+	return out
+}
+
+// retAlloc finds the struct allocation returned as result ri on a path
+// (through interface conversion).
+func retAlloc(pt *core.Path, ri int) *ssa.Alloc {
+	if pt.Ret == nil || ri >= len(pt.Ret.Results) {
+		return nil
+	}
+	v := pt.Ret.Results[ri]
+	for i := 0; i < 6; i++ {
+		switch x := v.(type) {
+		case *ssa.MakeInterface:
+			v = x.X
+		case *ssa.ChangeInterface:
+			v = x.X
+		case *ssa.Phi:
+			if r := pt.D.PhiVal(x); r != nil {
+				v = r
+			} else {
+				return nil
+			}
+		case *ssa.Alloc:
+			return x
+		default:
+			return nil
+		}
+	}
+	return nil
+}
+
+// retFields gives, for a path returning a freshly built struct, the
+// descriptor (on that path) of the value stored to each field. Fields never
+// stored are absent (zero value).
+func retFields(pt *core.Path, ri int) (map[string]string, map[string]ssa.Value, bool) {
+	a := retAlloc(pt, ri)
+	if a == nil {
+		return nil, nil, false
+	}
+	out := map[string]string{}
+	vals := map[string]ssa.Value{}
+	for name, sts := range litStores(a) {
+		for _, st := range sts {
+			if pt.PassesThrough(st.Block()) {
+				out[name] = pt.Desc(st.Val)
+				vals[name] = st.Val
+			}
+		}
+	}
+	return out, vals, true
+}
